@@ -35,6 +35,7 @@ var c17LRs = []lrSpec{
 	{"1e-3", &optimizers.SGDConfig{LearningRate: 1e-3}, 1e-3}, {"-1e-3", &optimizers.SGDConfig{LearningRate: -1e-3}, -1e-3},
 	{"0.5", &optimizers.SGDConfig{LearningRate: 0.5}, 0.5}, {"-0.5", &optimizers.SGDConfig{LearningRate: -0.5}, -0.5}, {"2", &optimizers.SGDConfig{LearningRate: 2}, 2},
 	{"1e-200", &optimizers.SGDConfig{LearningRate: 1e-200}, 1e-200}, {"1e150", &optimizers.SGDConfig{LearningRate: 1e150}, 1e150},
+	{"1e-155", &optimizers.SGDConfig{LearningRate: 1e-155}, 1e-155},
 	{"0.01 (the default, given explicitly)", &optimizers.SGDConfig{LearningRate: 0.01}, 0.01}, {"1", &optimizers.SGDConfig{LearningRate: 1}, 1},
 }
 
@@ -42,7 +43,7 @@ func runC17(c *fw.Ctx) {
 	deeperBounds(!c.Quick())
 	for _, shape := range Shapes(0, c.Pick(4, 6), 3) {
 		for _, lr := range c17LRs {
-			for src := 0; src < 5; src++ {
+			for src := 0; src < 6; src++ {
 				shape, lr, src := shape, lr, src
 				c.Case(func(k *fw.K) { c17Case(k, shape, lr, src) })
 			}
@@ -94,6 +95,12 @@ func c17Weight(k *fw.K, shape []int, src int) (w tensor.Tensor, what string, err
 	}
 	defer func() { what += prov }()
 	switch src {
+	case 5: // a gradient that is exactly zero everywhere (all units dead): the step still replaces the tensor and leaves the old one alone
+		y, e := w.Mul(rt.MustLeaf(ref.Zeros(shape), false))
+		if e != nil {
+			return nil, "", e
+		}
+		return w, "gradient exactly zero in every element", tensor.BackPropagate(y)
 	case 4: // the tensor being stepped is itself the RESULT of an operation on a tracked leaf (h = x * a), with a gradient of its own
 		x := rt.MustLeaf(Shuffled(k.Rng, Unique(k.Rng, shape, 0.5, 1.5)), true)
 		h, e := x.Mul(rt.MustLeaf(Shuffled(k.Rng, Unique(k.Rng, shape, 0.5, 1.5)), false))
@@ -216,6 +223,18 @@ func c17Case(k *fw.K, shape []int, lr lrSpec, src int) {
 				}
 			})
 		}
+		if k.Rng.Intn(3) == 0 { // a REFUSED call on the optimizer under test (no gradient / nil tensor): it must not affect the calls that follow
+			var bad tensor.Tensor = rt.MustLeaf(ref.Full(shape, 1), true)
+			if k.Rng.Intn(2) == 0 {
+				bad = nil
+			}
+			var berr error
+			if p := call(func() { berr = opt.Update(&bad) }); p != nil || berr == nil {
+				k.Failf("Update of a tensor without a gradient / a nil tensor: panic=%v err=%v (an error is required)", p, berr)
+				return
+			}
+			k.Count("refused_updates_before_a_valid_one", 1)
+		}
 		if k.Rng.Intn(2) == 0 {
 			call(func() {
 				if dw, _, e := c17Weight(k, shape, 1); e == nil {
@@ -227,7 +246,7 @@ func c17Case(k *fw.K, shape []int, lr lrSpec, src int) {
 		var w tensor.Tensor
 		var what string
 		var err error
-		if p := call(func() { w, what, err = c17Weight(k, shape, (src+round)%5) }); p != nil || err != nil {
+		if p := call(func() { w, what, err = c17Weight(k, shape, (src+round)%6) }); p != nil || err != nil {
 			k.Failf("building a weight with a gradient failed: panic=%v err=%v", p, err)
 			return
 		}
@@ -336,7 +355,11 @@ func c17Invalid(k *fw.K) {
 func c17SameObjectTwice(k *fw.K) {
 	shape := RandShape(k.Rng, 0, 3, 3)
 	lr := c17LRs[3+k.Rng.Intn(5)]
-	scale := []float64{1, 1, 1e200, 1e-200, 1e160}[k.Rng.Intn(5)]
+	scale := []float64{1, 1, 1e200, 1e-200, 1e160, -1}[k.Rng.Intn(6)]
+	wscale := 1.
+	if scale == -1 { // the step lr*g is a SUBNORMAL number although lr and g are ordinary normal floats; weights small enough for it to show
+		scale, wscale = 1e-312/math.Abs(lr.lr), 1e-310
+	}
 	k.Case = map[string]any{"scenario": "same tensor object stepped twice, gradient accumulated in between", "shape": shape, "learning_rate": lr.name, "gradient_scale": scale}
 	k.Key("same-object/%s/%s/%g", shapeKey(shape), lr.name, scale)
 	k.Count("same_object_twice_cases", 1)
@@ -347,6 +370,7 @@ func c17SameObjectTwice(k *fw.K) {
 	for i := range c1.Data {
 		c1.Data[i] *= scale
 		c2.Data[i] *= scale
+		wv.Data[i] *= wscale
 	}
 	w0 := rt.MustLeaf(wv, true)
 	var y1, y2 tensor.Tensor
